@@ -375,7 +375,12 @@ impl World {
         self.with(|i| {
             if let Some(h) = i.history.as_mut() {
                 let s = f();
-                h.push(format!("[{:>4}|t{}|s{}] {}", i.clock, if rt::in_task() { rt::current() as i64 } else { -1 }, if rt::in_task() { rt::steps() } else { 0 }, s));
+                let line = format!("[{:>4}|t{}|s{}] {}", i.clock, if rt::in_task() { rt::current() as i64 } else { -1 }, if rt::in_task() { rt::steps() } else { 0 }, s);
+                if std::env::var_os("DV_VERBOSE").is_some() {
+                    // (a case that kills its process never gets to print its history: stream it)
+                    eprintln!("{}", line);
+                }
+                h.push(line);
             }
         })
     }
